@@ -191,9 +191,11 @@ def idents(project):
 
 
 def phase_of(traceback_text):
-    """where the run was aborted: while reading/parsing a file (the per-file error handling applies) or later, in correlate()"""
+    """where the run was aborted: while reading/parsing a file (the per-file error handling applies) or later, in correlate() or while rendering pages"""
     if re.search(r"in correlate\b", traceback_text):
         return "correlate"
+    if "Error rendering" in traceback_text and "ford/output.py" in traceback_text:
+        return "render"  # a page of an accepted file could not be rendered (FORD's own message points at a parsing error)
     if "_fortran_file" in traceback_text or "in __init__" in traceback_text:
         return "parse"
     return "other"
